@@ -9,8 +9,9 @@
 (***************************************************************************)
 EXTENDS TraceIO
 
-VARIABLES l, cnt
-vars == <<l, cnt>>
+VARIABLES l, cnt, refobs
+\* refobs: per (functional, system) the observables of the first tightly converged solve (reference for C18 agreement)
+vars == <<l, cnt, refobs>>
 E == Rec[l]
 Ev(name) == l <= NRec /\ E.ev = name /\ l' = l + 1
 
@@ -37,13 +38,107 @@ Uniform ==
      /\ Chk("C16.volume_is_integral_of_one", <<info, E.volume_reported, E.volume_integrated, l>>, E.volume_reported, E.volume_integrated, RtolVolume, FAbs(E.volume_integrated), "0")
      /\ Chk("C16.zero_excess_grand_potential", <<info, E.grand_potential, pV, l>>, FAdd(E.grand_potential, pV), "0", RtolVolume, FAdd(FAbs(E.grand_potential), FAbs(pV)), "0")
   /\ cnt' = BumpAll(cnt, {"uniform_profiles", "grid:" \o E.grid, "functional:" \o E.functional} \cup (IF E.lanczos THEN {"lanczos"} ELSE {}))
+  /\ UNCHANGED refobs
 
 Panic == /\ Ev("Panic")
          /\ Report("C16.no_panic", <<E.functional, E.grid, E.msg, l>>, FALSE)
          /\ cnt' = Bump(cnt, "panics")
+         /\ UNCHANGED refobs
 
-Init == l = 1 /\ cnt = NoCount
-Next == /\ (Uniform \/ Panic)
+\* ---------------------------------------------------------------- C18
+\* tolerance of the last stage of a chain (the default solver ends with Anderson mixing at 1e-11)
+TolExp(e) == IF e.default_solver THEN 11 ELSE e.chain[Len(e.chain)].tol
+TolOf(e) == IF TolExp(e) = 11 THEN "1e-11" ELSE "1e-5"
+SolverName(st) == (CASE st.algo = "picard" -> "Picard iteration" [] st.algo = "anderson" -> "Anderson mixing" [] OTHER -> "Newton")
+                  \o (IF st.log THEN " (log)" ELSE "")
+\* The log is a behaviour of DftSolver.tla: EVERY stage of the chain runs (call_solver has no early exit), every stage
+\* logs at least its first residual, GMRES entries only follow a Newton entry.  So with GMRES runs dropped and equal
+\* neighbours merged, the solver names of the log equal the merged stage names of the chain.
+RECURSIVE Merge(_)
+Merge(s) == IF Len(s) <= 1 THEN s
+            ELSE IF s[1] = s[2] THEN Merge(Tail(s)) ELSE <<s[1]>> \o Merge(Tail(s))
+IsNewton(n) == n = "Newton" \/ n = "Newton (log)"
+LogNames(runs) == [i \in 1..Len(runs) |-> runs[i].solver]
+LogFollowsChain(e, chain, runs) ==
+  LET names == LogNames(runs)
+      stages == SelectSeq(names, LAMBDA n : n # "GMRES")
+      cn == IF e.default_solver THEN <<"Anderson mixing (log)", "Anderson mixing">> ELSE [i \in 1..Len(chain) |-> SolverName(chain[i])]
+  IN /\ Merge(stages) = Merge(cn)
+     /\ \A i \in 1..Len(names) : names[i] = "GMRES" => (i > 1 /\ IsNewton(names[i - 1]))
+\* Stage structure of the log (only when no two neighbouring stages share a name, so that stages can be told apart):
+\* NG = the non-GMRES runs; stage index of a run = 1 + number of name changes before it.
+NG(runs) == SelectSeq(runs, LAMBDA r : r.solver # "GMRES")
+RECURSIVE StageIdx(_, _)
+StageIdx(ng, i) == IF i = 1 THEN 1 ELSE StageIdx(ng, i - 1) + (IF ng[i].solver = ng[i - 1].solver THEN 0 ELSE 1)
+Separable(e) == ~e.default_solver /\ \A i \in 1..(Len(e.chain) - 1) : SolverName(e.chain[i]) # SolverName(e.chain[i + 1])
+StageFirst(ng, s) == ng[CHOOSE i \in 1..Len(ng) : StageIdx(ng, i) = s /\ \A k \in 1..Len(ng) : StageIdx(ng, k) = s => i <= k]
+StageLast(ng, s) == ng[CHOOSE i \in 1..Len(ng) : StageIdx(ng, i) = s /\ \A k \in 1..Len(ng) : StageIdx(ng, k) = s => k <= i]
+RECURSIVE SumTo(_, _)
+SumTo(f, i) == IF i = 0 THEN 0 ELSE f[i] + SumTo(f, i - 1)
+StageEntries(ng, s) == SumTo([i \in 1..Len(ng) |-> IF StageIdx(ng, i) = s THEN ng[i].entries ELSE 0], Len(ng))
+StageTol(st) == IF st.tol = 11 THEN "1e-11" ELSE "1e-5"
+\* DftSolver.RunStage, first disjunct: a stage that starts below its tolerance converges at once and leaves the density
+\* untouched (one log entry; the next stage starts from the same residual).  Second/third disjunct: a stage that ended
+\* converged hands its last residual to the next stage unchanged (convergence is detected before the update).
+StageLaws(e, runs) ==
+  LET ng == NG(runs) n == Len(e.chain) IN
+  \A s \in 1..n :
+     LET f == StageFirst(ng, s).first  la == StageLast(ng, s).last  tol == StageTol(e.chain[s]) IN
+     /\ (FLt(f, tol) => StageEntries(ng, s) = 1)
+     /\ ((s < n /\ FLt(la, tol)) => StageFirst(ng, s + 1).first = la)
+     /\ (s = n => (e.ok <=> FLt(la, tol)))
+\* the last non-GMRES entry of the log is the residual the convergence decision was taken on
+LastStageRun(runs) == LET idx == {i \in 1..Len(runs) : runs[i].solver # "GMRES"} IN runs[CHOOSE i \in idx : \A k \in idx : k <= i]
+Key(e) == <<e.functional, e.system>>
+NotConvergedMsg == "`DFT` did not converge within the maximum number of iterations."
+Solve ==
+  /\ Ev("Solve")
+  /\ LET o == E.obs
+         info == <<E.functional, E.system, E.init, E.default_solver, E.chain, E.spec>>
+         tight == TolExp(E) = 11
+         k == Key(E)
+         hasRef == k \in DOMAIN refobs
+     IN
+     /\ (E.ok =>
+          /\ Chk("C18.residual_below_tolerance", <<info, o.residual, l>>, o.residual, "0", "1", "0", FMul("1.01", TolOf(E)))
+          /\ Report("C18.density_positive_finite", <<info, o.density_min, l>>, o.finite /\ FLe("0", o.density_min) /\ FFinite(o.density_max))
+          /\ Report("C18.log_is_behaviour_of_chain", <<info, o.runs, l>>, LogFollowsChain(E, E.chain, o.runs))
+          /\ (Separable(E) /\ LogFollowsChain(E, E.chain, o.runs) =>
+                 Report("C18.stages_are_DftSolver_steps", <<info, o.runs, l>>, StageLaws(E, o.runs)))
+          /\ Report("C18.log_last_residual_below_tolerance", <<info, LastStageRun(o.runs), l>>, FLt(LastStageRun(o.runs).last, TolOf(E)))
+          /\ Chk("C18.log_last_residual_is_residual_of_result", <<info, LastStageRun(o.runs).last, o.residual, l>>, LastStageRun(o.runs).last, o.residual,
+                  "1e-3", FMax(FAbs(o.residual), FAbs(LastStageRun(o.runs).last)), FMul("1e-2", TolOf(E)))
+          /\ (E.spec = "ChemicalPotential" =>
+                 Report("C18.bulk_unchanged", <<info, o.bulk_rho_before, o.bulk_rho_after, l>>,
+                        \A i \in 1..Len(o.bulk_rho_before) : FClose(o.bulk_rho_before[i], o.bulk_rho_after[i], "1e-10", FAbs(o.bulk_rho_before[i]), "0")))
+          /\ ((E.spec # "ChemicalPotential" /\ tight) =>
+                 Chk("C18.specified_moles_met", <<info, E.spec_total_moles, o.moles, l>>, FSum(o.moles), E.spec_total_moles, "1e-7", FAbs(E.spec_total_moles), "0"))
+          /\ ((E.spec = "Moles" /\ tight) => \A i \in 1..Len(E.spec_moles) :
+                 Chk("C18.specified_moles_met", <<info, i, E.spec_moles[i], o.moles[i], l>>, o.moles[i], E.spec_moles[i], "1e-7", FAbs(E.spec_moles[i]), "0"))
+          /\ ((tight /\ hasRef /\ E.spec = "ChemicalPotential") =>
+                 /\ (Has(E, "surface_tension") /\ Has(refobs[k], "surface_tension") =>
+                        Chk("C18.observables_agree", <<info, "surface tension", l>>, E.surface_tension, refobs[k].surface_tension, "1e-6", FAbs(refobs[k].surface_tension), "0"))
+                 /\ (~Has(E, "surface_tension") =>
+                        /\ Chk("C18.observables_agree", <<info, "grand potential", l>>, o.omega, refobs[k].obs.omega, "1e-6", FAbs(refobs[k].obs.omega), "0")
+                        /\ Chk("C18.observables_agree", <<info, "adsorbed amount", l>>, FSum(o.moles), FSum(refobs[k].obs.moles), "1e-6", FSum(refobs[k].obs.moles), "0"))))
+     /\ (~E.ok /\ E.err = NotConvergedMsg =>
+          \* the log is stored before Err(NotConverged) is returned: the same stage laws, with a last stage that missed its tolerance
+          /\ Report("C18.log_is_behaviour_of_chain", <<info, o.runs, l>>, LogFollowsChain(E, E.chain, o.runs))
+          /\ (Separable(E) /\ LogFollowsChain(E, E.chain, o.runs) =>
+                 Report("C18.stages_are_DftSolver_steps", <<info, o.runs, l>>, StageLaws(E, o.runs))))
+     /\ refobs' = IF E.ok /\ tight /\ ~hasRef /\ E.spec = "ChemicalPotential" THEN (k :> E) @@ refobs ELSE refobs
+     /\ cnt' = BumpAll(cnt, {"solves", "solve_spec:" \o E.spec} \cup (IF E.ok THEN {"solves_ok", "solve_ok:" \o E.system} ELSE {"solves_err"})
+                  \cup (IF E.ok /\ tight THEN {"solves_ok_tight"} ELSE {}) \cup (IF E.ok /\ E.spec # "ChemicalPotential" /\ tight THEN {"solves_ok_with_moles_spec"} ELSE {})
+                  \cup (IF E.ok THEN {"solve_init:" \o E.init} ELSE {})
+                  \cup (IF E.ok /\ tight /\ hasRef /\ E.spec = "ChemicalPotential" THEN {"observables_compared"} ELSE {})
+                  \cup (IF (E.ok \/ E.err = NotConvergedMsg) /\ Separable(E) THEN {"stage_laws_checked"} ELSE {})
+                  \cup (IF ~E.ok /\ E.err = NotConvergedMsg THEN {"solves_not_converged"} ELSE {})
+                  \cup (IF E.ok /\ ~E.default_solver THEN {"solve_ok_last:" \o E.chain[Len(E.chain)].algo} ELSE {}))
+
+SkipEv == /\ Ev("Skip") /\ cnt' = Bump(cnt, "skipped") /\ UNCHANGED refobs
+
+Init == l = 1 /\ cnt = NoCount /\ refobs = <<>>
+Next == /\ (Uniform \/ Panic \/ Solve \/ SkipEv)
         /\ (l' > NRec => PrintT("STATS " \o ToJson(cnt')))
 TraceSpec == Init /\ [][Next]_vars
 ================================================================================
